@@ -3,6 +3,8 @@ EXTENDS PTFasta, Json
 MCLines == { [hdr |-> TRUE,  text |-> ">sp|P1|first protein", stripped |-> ">sp|P1|first protein"],
              [hdr |-> TRUE,  text |-> ">",                    stripped |-> ">"],
              [hdr |-> TRUE,  text |-> ">P2 variant A->V >x ",  stripped |-> ">P2 variant A->V >x"],     \* '>' inside a header is text
+             [hdr |-> TRUE,  text |-> ">P3 page<FF>break",     stripped |-> ">P3 page<FF>break"],      \* <FF>: the harness writes a form feed / file separator / NEL / U+2028 here
+             [hdr |-> FALSE, text |-> "MKV*",                 stripped |-> "MKV*"],                   \* a line ending in '*' stays as written
              [hdr |-> FALSE, text |-> " >indented",           stripped |-> " >indented"],             \* only a leading '>' starts a record
              [hdr |-> FALSE, text |-> "MKV LA",               stripped |-> "MKV LA"],
              [hdr |-> FALSE, text |-> "GGX*AA  ",             stripped |-> "GGX*AA"],
